@@ -486,6 +486,16 @@ theorem hEqOf_node (B bOverH : Rat) (hs : List Rat) (h mx mn : Rat) (hb : bOverH
       rw [this]; simp [hct]
     · simp only [c1, if_false, e, if_true]
 
+/-- Rebuilt or reused, the table in use is the one of the present call. -/
+theorem tableFor_eq (cache : Cache) (k : RKind) (ex : Bool) : tableFor cache k ex = (k, ex) := by
+  unfold tableFor
+  cases cache with
+  | none => rfl
+  | some ce =>
+    by_cases h : ce = (k, ex)
+    · simp [h]
+    · simp [h]
+
 /-! ### fixture for the non-vacuity examples of Props/C11 -/
 
 /-- The sizing family `[60, 97.5, 135]` m, `B = 5` m, asked at `B/H = 5/97.5`: the middle curve. -/
